@@ -126,6 +126,83 @@ func hasQuantifier(ts []*Term) bool {
 	return false
 }
 
+
+func flattenAnd(ts []*Term) []*Term {
+	var out []*Term
+	for _, t := range ts {
+		if t.Op == "and" {
+			out = append(out, flattenAnd(t.Args)...)
+		} else if t != True {
+			out = append(out, t)
+		}
+	}
+	return out
+}
+
+func symbolsOf(t *Term, into map[string]bool) {
+	seen := map[int]bool{}
+	var walk func(t *Term)
+	walk = func(t *Term) {
+		if seen[t.id] {
+			return
+		}
+		seen[t.id] = true
+		if t.Op == "var" || t.Op == "app" {
+			into[t.Name] = true
+		}
+		for _, a := range t.Args {
+			walk(a)
+		}
+	}
+	walk(t)
+}
+
+// relevant keeps the hypotheses connected to the goal through shared symbols (rounds of closure).
+func relevant(hyps []*Term, goal *Term, rounds int, dropQuant bool) []*Term {
+	syms := map[string]bool{}
+	symbolsOf(goal, syms)
+	hs := make([]map[string]bool, len(hyps))
+	quant := make([]bool, len(hyps))
+	for i, h := range hyps {
+		hs[i] = map[string]bool{}
+		symbolsOf(h, hs[i])
+		quant[i] = hasQuantifier([]*Term{h})
+	}
+	taken := make([]bool, len(hyps))
+	for r := 0; r < rounds; r++ {
+		changed := false
+		for i := range hyps {
+			if taken[i] || (dropQuant && quant[i]) {
+				continue
+			}
+			hit := len(hs[i]) == 0
+			for s := range hs[i] {
+				if syms[s] {
+					hit = true
+					break
+				}
+			}
+			if hit {
+				taken[i] = true
+				changed = true
+				for s := range hs[i] {
+					syms[s] = true
+				}
+			}
+		}
+		if !changed {
+			break
+		}
+	}
+	var out []*Term
+	for i, h := range hyps {
+		if taken[i] {
+			out = append(out, h)
+		}
+	}
+	return out
+}
+
 type RunConfig struct {
 	TimeoutMs int
 	All       bool // all solvers must agree
@@ -134,8 +211,8 @@ type RunConfig struct {
 
 func Discharge(obls []*Obligation, counts map[*Obligation][]*countDef, cfg RunConfig) {
 	type job struct {
-		o      *Obligation
-		script string
+		o       *Obligation
+		scripts []string // increasingly complete hypothesis sets; the last one is the full query
 	}
 	// scripts are generated sequentially (term tables are not thread-safe)
 	jobs := make([]job, 0, len(obls))
@@ -145,7 +222,7 @@ func Discharge(obls []*Obligation, counts map[*Obligation][]*countDef, cfg RunCo
 			o.Solver = "trivial"
 			continue
 		}
-		hyps := o.BuildQuery(counts[o])
+		hyps := flattenAnd(o.BuildQuery(counts[o]))
 		o.QF = !hasQuantifier(append(append([]*Term{}, hyps...), o.Goal))
 		var vals []*Term
 		present := map[int]*Term{}
@@ -168,7 +245,14 @@ func Discharge(obls []*Obligation, counts map[*Obligation][]*countDef, cfg RunCo
 				}
 			}
 		}
-		jobs = append(jobs, job{o, Script(hyps, o.Goal, vals)})
+		j := job{o: o}
+		if !o.QF {
+			// stage 1: quantifier-free hypotheses connected to the goal; stage 2: connected hypotheses
+			j.scripts = append(j.scripts, Script(relevant(hyps, o.Goal, 4, true), o.Goal, nil))
+			j.scripts = append(j.scripts, Script(relevant(hyps, o.Goal, 2, false), o.Goal, nil))
+		}
+		j.scripts = append(j.scripts, Script(hyps, o.Goal, vals))
+		jobs = append(jobs, j)
 	}
 	if cfg.Workers <= 0 {
 		cfg.Workers = 8
@@ -180,20 +264,38 @@ func Discharge(obls []*Obligation, counts map[*Obligation][]*countDef, cfg RunCo
 		go func() {
 			defer wg.Done()
 			for j := range ch {
-				if len(j.script) > 4<<20 {
-					j.o.Verdict = VUnknown
-					j.o.Note = "query exceeds the 4 MB cap"
-					continue
-				}
-				r := Solve(j.script, cfg.TimeoutMs, cfg.All)
-				j.o.Verdict = r.Verdict
-				j.o.Solver = r.Solver
-				j.o.Ms = r.Ms
-				j.o.Model = r.Model
-				if r.Verdict == VUnknown {
-					j.o.Note = "no solver decided within the time limit"
-					if r.Solver == "DISAGREE" {
-						j.o.Note = "solvers disagree"
+				var total int64
+				for k, sc := range j.scripts {
+					last := k == len(j.scripts)-1
+					if len(sc) > 4<<20 {
+						j.o.Verdict = VUnknown
+						j.o.Note = "query exceeds the 4 MB cap"
+						continue
+					}
+					ms := cfg.TimeoutMs
+					if !last {
+						ms = min(ms, 3000)
+					}
+					r := Solve(sc, ms, cfg.All && last)
+					total += r.Ms
+					if !last {
+						// a reduced hypothesis set can only prove, never refute
+						if r.Verdict == VUnsat {
+							j.o.Verdict, j.o.Solver, j.o.Ms = VUnsat, r.Solver, total
+							j.o.Note = "proved from a reduced hypothesis set"
+							break
+						}
+						continue
+					}
+					j.o.Verdict = r.Verdict
+					j.o.Solver = r.Solver
+					j.o.Ms = total
+					j.o.Model = r.Model
+					if r.Verdict == VUnknown {
+						j.o.Note = "no solver decided within the time limit"
+						if r.Solver == "DISAGREE" {
+							j.o.Note = "solvers disagree"
+						}
 					}
 				}
 			}
